@@ -24,13 +24,13 @@ Definition as_paramstyle (d : dialect) (t : tree) : option paramstyle :=
 Definition as_bs (d : dialect) (t : tree) : option bool :=
   match t with I 0%Z => Some false | I 1%Z => Some true | I 2%Z => Some (default_bs d) | _ => None end.
 
-Definition as_cfg (t : tree) : option (dialect * flags) :=
+Definition as_cfg (t : tree) : option (dialect * flags * paramstyle) :=
   match t with
   | L [td; tb; tp] =>
     match as_dialect td with
     | Some d =>
       match as_bs d tb, as_paramstyle d tp with
-      | Some b, Some p => Some (d, mkFlags (dp_of_paramstyle p) b)
+      | Some b, Some p => Some (d, mkFlags (dp_of_paramstyle p) b, p)
       | _, _ => None
       end
     | None => None
@@ -96,20 +96,30 @@ Fixpoint all_ok (l : list (result str)) : result (list str) :=
 Definition s_lower : str := [108; 111; 119; 101; 114; 40].   (* lower( *)
 
 (* position codes: 2 = IN list, 9 = IN list whose type has bind_expression lower(...), anything
-   else = a single literal.  mode: 0 literal_binds, 1 literal_execute *)
-Definition render_case (d : dialect) (fl : flags) (mode pos : Z) (vals : list value) : tree :=
+   else = a single literal.  mode: 0 literal_binds, 1 literal_execute.
+   Observation: [0; text] | [1] CompileError | [3] KeyError (numeric paramstyle: the %(name)s
+   pass finds its pattern inside the rendered text; the harness statements have no such name) *)
+Definition observe (p : paramstyle) (mode : Z) (text : str) : tree :=
+  if is_numeric_style p then
+    match find_pyformat text with Some _ => L [I 3%Z] | None => L [I 0%Z; of_str text] end
+  else match positional_placeholder p with
+       | Some ph => if Z.eqb mode 0 then L [I 0%Z; of_str (pysub ph 0 text)] else L [I 0%Z; of_str text]
+       | None => L [I 0%Z; of_str text]
+       end.
+
+Definition render_case (d : dialect) (fl : flags) (p : paramstyle) (mode pos : Z) (vals : list value) : tree :=
   match all_ok (map (render_value d fl) vals) with
   | CompileError => L [I 1%Z]
   | Ok lits =>
     if Z.eqb pos 2 then
-      match lits with [] => bad_input | _ => L [I 0%Z; of_str (render_in_list lits)] end
+      match lits with [] => bad_input | _ => observe p mode (render_in_list lits) end
     else if Z.eqb pos 9 then
       match lits with
       | [] => bad_input
-      | _ => L [I 0%Z; of_str (if Z.eqb mode 0 then render_in_list_be s_lower [41] lits
-                               else process_expanding_be s_lower [41] lits)]
+      | _ => observe p mode (if Z.eqb mode 0 then render_in_list_be s_lower [41] lits
+                             else process_expanding_be s_lower [41] lits)
       end
-    else match lits with [x] => L [I 0%Z; of_str x] | _ => bad_input end
+    else match lits with [x] => observe p mode x | _ => bad_input end
   end.
 
 (* ---- spec-side validation families *)
@@ -128,7 +138,7 @@ Definition run_case (t : tree) : tree :=
   (* rendering *)
   | L [I 0%Z; tcfg; I mode; I pos; I ty; tvals] =>
     match as_cfg tcfg, as_list_of (as_value ty) tvals with
-    | Some (d, fl), Some vals => render_case d fl mode pos vals
+    | Some (d, fl, p), Some vals => render_case d fl p mode pos vals
     | _, _ => bad_input
     end
   (* SQLite:  SELECT (<text>)  returns one string  <->  the text is exactly one string literal *)
